@@ -147,7 +147,12 @@ def run_normal(ctx, h, progs):
             cur["dead"] = True
         elif t[0] == "X":
             c = cur["canon"]
+            lastcall = [x for x in c.lines if x.startswith("c ")][-1:] or [""]
             if t[1] == "sig6":
+                how = "abort"
+            elif t[1] == "sig11" and lastcall[0].split()[3:4] in (["wait"], ["waitfor"]):
+                # do_wait's ownership assertion formats `mutex->get_owner()->get_pid()`: with a free mutex the message
+                # itself dereferences a null owner, so the failed assertion shows up as SIGSEGV instead of SIGABRT
                 how = "abort"
             elif t[1] == "ok" and cur["dead"]:
                 how = "deadlock"
